@@ -30,6 +30,28 @@ def vec_prop(mods, expl, extra_assump=()):
         "explanation": expl,
     }
 
+ADP_RULE = ("engine adp — exhaustive: (A) Head/Tail/Skip x source length 0..4 (thorough 5) x limit/count 0..5 (6) x every valid source operation "
+            "(all indices, Append payloads of 0..3 items) x both stream flavours; (B) every limit/count change (old,new,len) for the dynamic adapters incl. the first value of "
+            "a purely dynamic one, and the 2-step combinations diff;limit / limit;diff / limit;limit before one poll; (C) Filter/FilterMap: every pass/fail mask over the items "
+            "present and the inserted values x every valid operation; (D) Sort/SortBy/SortByKey: every source of length <=3 (4) over a 3-value alphabet with ties x 4 comparators x "
+            "every valid operation except Truncate; (KF) confirmation cases of the known findings; random: 4000 (thorough 30000) histories over random chains of 1..3 stages "
+            "(static/dynamic/dynamic-with-initial head/tail/skip, filter, filter_map, sort*), transactions, lag-inducing capacities, limit changes and stream ends, polls at random or "
+            "after every single operation (wake check). Per-stage transparent taps feed the implementation-side oracles. Every case is non-trivial; distinct = distinct traces.")
+
+def adp_prop(mods, expl, extra_assump=(), engines=None):
+    return {
+        "level": "proof",
+        "lean_modules": mods,
+        "engines": engines or [{"name": "adp"}],
+        "rule": ADP_RULE,
+        "exhaustive": True,
+        "trusted_base": [KERNEL, CORR, IMBL, TOKIO_BC,
+                         "limit/count streams modelled as closable queues of announced values (harness uses the same kind of stream; an eyeball Subscriber used as limit stream is the special case of a queue of length <= 1)"],
+        "assumptions": [ELEM, "user closures (predicates, mappings, comparators, keys) drawn from shared tables in the correspondence runs; the theorems quantify over all functions",
+                        "incoming diffs are validOn the adapter's buffered vector (what ObservableVector and the other adapters emit: strict applicability, Truncate only when it shortens)"] + list(extra_assump),
+        "explanation": expl,
+    }
+
 PROPS = {
     "C18": {
         "level": "proof",
@@ -90,9 +112,39 @@ PROPS = {
         design_ref="DESIGN.md §6 C08"),
 }
 
+PROPS.update({
+    "C09": dict(adp_prop(["EyeballVerif.Props.C09"],
+        "head_handle_diff / tail_handle_diff / skip_handle_diff: for every diff valid on the buffered vector, every limit/count and every vector, the emitted diffs replayed strictly on the old view "
+        "(take L / lastN L / drop c) give the new view; head_update_limit / skip_update_count for every (old,new,vector); Tail::update_limit: full statement refuted by a kernel-checked witness "
+        "(known finding D2) and proved outside the D2 signature (tail_update_limit_partial); *_initial: the constructors hand out the spec view"),
+        claim=("Lean 4 theorems, one per adapter and quantified over every diff valid on the source, every limit/count and every vector: the diffs emitted by handle_diff (all eleven arms), replayed strictly on "
+               "the old view, yield exactly take L / last L / drop c of the new source (head_handle_diff, tail_handle_diff, skip_handle_diff) — which also shows each emitted diff is applicable; the same for every "
+               "limit/count change (head_update_limit, skip_update_count); for Tail::update_limit the full statement is refuted in the kernel (known finding D2) and the strongest partial theorem is proved. "
+               "Initial values = spec view. Tied to the code by exhaustive small-scope + random differential runs with per-stage oracles; stream end and Pending-quiescence are checked by the oracle on every history."),
+        technique="Lean 4 proof (per-arm refinement, list extensionality + grind) + model/implementation correspondence",
+        design_ref="DESIGN.md §6 C09"),
+    "C10": dict(adp_prop(["EyeballVerif.Props.C10"],
+        "filter_handle: for every partial mapping f, source, bookkeeping state satisfying FInv and valid diff: FInv is preserved and the emitted diff replayed strictly on filterMap f src gives filterMap f src'; filter_init"),
+        claim=("Lean 4 theorem filter_handle: for every partial mapping f (Filter is the instance 'some x if p x'), every source vector and every diff valid on it, if the index bookkeeping is right before "
+               "(FInv: original_len = length, filtered_indices = positions of the passing items) it is right afterwards and the emitted diff, replayed strictly on the old filtered view, gives the new filtered view "
+               "— all eleven handle_* functions incl. the binary-search-and-shift ones and the repaired Reset arm (D3); filter_init for the constructors. Tied to the code by every pass/fail mask x every operation."),
+        technique="Lean 4 proof (index-list invariant, per-arm lemmas over a split of the source) + model/implementation correspondence",
+        design_ref="DESIGN.md §6 C10"),
+    "C15": dict(adp_prop(["EyeballVerif.Props.C15"],
+        "head_prefix_bound / tail_prefix_bound: for every valid diff, limit and vector, every intermediate replica while replaying the emitted diffs one by one has at most `limit` items (runBounded), "
+        "runBounded_prefix connects it to prefixes of the emitted list; c15_initial"),
+        claim=("Lean 4 theorems head_prefix_bound / tail_prefix_bound: for every diff valid on the source, every limit and vector, replaying the emitted diffs one at a time never lets the view exceed the limit "
+               "(the order PopBack-before-PushFront, PopFronts-before-Append, PopBacks-before-PushFronts is what the proof uses); c15_initial for the constructors. Tied to the code by the adp engine, whose oracle "
+               "checks the bound after each single diff of both stream flavours."),
+        technique="Lean 4 proof (bounded-run predicate by case analysis and induction over replicate/map runs) + model/implementation correspondence",
+        design_ref="DESIGN.md §6 C15"),
+})
+
 ENGINES = [
     {"name": "diff", "path": "harness/src/eng_diff.rs", "serves_properties": ["C18"],
      "kind_free_text": "differential correspondence (real VectorDiff vs Lean model) + implementation-side oracle"},
     {"name": "vec", "path": "harness/src/eng_vec.rs", "serves_properties": ["C05", "C06", "C07", "C08", "C17"],
      "kind_free_text": "differential correspondence (real ObservableVector/subscriber streams vs Lean model OV) + implementation-side oracles (strict replica, plain-vector reference, pending-message ledger, wake flags)"},
+    {"name": "adp", "path": "harness/src/eng_adp.rs", "serves_properties": ["C09", "C10", "C11", "C12", "C13", "C14", "C15"],
+     "kind_free_text": "differential correspondence (real adapter pipelines vs Lean model Pipe) + implementation-side oracles on transparent taps between the stages"},
 ]
